@@ -95,9 +95,9 @@ def run(ctx):
     lt = ast.unparse(load.node) if load else ""
     r3.check("open(self.path)" in lt and "self.hashes = json.load(" in lt and "FileNotFoundError" in lt, f"{fsh.module.relpath}::FileSpecHashes.load",
              "records are loaded from self.path (first use: no file is fine)", "the hash store does not load its records from its file (tolerating a missing file)", fsh.where)
-    rule_exit_persists(ctx, r3)
-    rule_close_writes(ctx, r3)
-    rule_atomic_replace(ctx, r3)
+    rule_exit_persists(ctx, r3, ("spec hashes",))
+    rule_close_writes(ctx, r3, ("spec hashes",))
+    rule_atomic_replace(ctx, r3, ("spec hashes",))
 
     r4 = ctx.rule("R4", "the spec test is part of the staleness decision (consulted first)")
     rule_guard_order(ctx, r4)
